@@ -252,6 +252,21 @@ def _collect_like(items, opts):
     return out or [C(0)]
 
 
+def mk_neg(b, opts=None):
+    if is_c(b) and isinstance(b[1], (int, float)) and not isinstance(b[1], bool):
+        return C(-b[1])
+    if b[0] == '+':
+        acc = None
+        for x in b[1]:
+            n = mk_neg(x, opts)
+            acc = n if acc is None else mk_bin('+', acc, n, opts)
+        return acc
+    if b[0] == '*' and len(b[1]) == 2 and is_int(b[1][0]) != is_int(b[1][1]):
+        c, base = (b[1][0], b[1][1]) if is_int(b[1][0]) else (b[1][1], b[1][0])
+        return base if c[1] == -1 else mk_bin('*', C(-c[1]), base, opts)
+    return mk_bin('*', C(-1), b, opts)
+
+
 def mk_bin(op, a, b, opts=None):
     # constant folding
     if is_c(a) and is_c(b):
@@ -261,6 +276,9 @@ def mk_bin(op, a, b, opts=None):
             pass
         except Exception:
             pass   # e.g. TypeError: keep symbolic, a kind rule may report it
+    if op == '-' and ((opts is not None and opts.plus_commutes) or (kind_of(a) == 'num' and kind_of(b) == 'num')):
+        # linear normal form: a - b  ->  a + (-1)*b   (holds in Z and in Z/2^w)
+        return mk_bin('+', a, mk_neg(b, opts), opts)
     if op == '+':
         if a[0] == b[0] and a[0] in ('list', 'tuple'):
             if len(a[1]) + len(b[1]) <= MAX_FOLD_LEN:
